@@ -1,4 +1,5 @@
 import MmtkModel.Model.BlockPool
+import MmtkModel.Model.BlockPoolTie
 /-!
 # C19 — the block pool never loses or duplicates a block
 
@@ -834,5 +835,392 @@ theorem head_lock_exclusive (hcap : 0 < cap) (h : Reachable n m cap s) (p q : Na
   have e1 := k.holderLock p hp h1
   have e2 := k.holderLock q hq h2
   rw [e1] at e2; injection e2
+
+
+/-! ### the tie: the executable verdict on real-thread histories follows from the theorems -/
+
+theorem count_range (N b : Nat) : (List.range N).count b = if b < N then 1 else 0 := by
+  rw [List.nodup_range.count]; simp [List.mem_range]
+
+/-- **C19 (tie)** at quiescence, if the blocks pushed were `0 … N-1` (each once, in any order by any
+workers), the popped and the held blocks partition them and `len()` is the number held. -/
+theorem race_outcome_sound (hcap : 0 < cap) (h : Reachable n m cap s) (hq : Quiescent n m s) (N : Nat)
+    (hp : s.pushed.Perm (List.range N)) :
+    partitionOk N s.popped (heldList n s) = true ∧ s.count = (heldList n s).length := by
+  refine ⟨?_, len_exact hcap h hq⟩
+  have perm := (conservation_quiescent hcap h hq).symm.trans hp
+  unfold partitionOk
+  simp only [Bool.and_eq_true, beq_iff_eq, List.all_eq_true, List.mem_range]
+  refine ⟨by rw [perm.length_eq, List.length_range], ?_⟩
+  intro b hb
+  rw [perm.count_eq b, count_range]; simp [hb]
+
+/-! ### the global write lock is free at quiescence -/
+
+def holdsGlobal : PPC → Bool
+  | .tryHead2 | .popGlobal | .install _ _ | .decr2 _ | .rel2 _ => true
+  | _ => false
+
+def GL (m : Nat) (s : State) : Prop := ∀ p, s.globalLock = some p → p < m ∧ holdsGlobal (s.pcP p) = true
+
+theorem stepW_locks (cap : Nat) (s : State) (w : Nat) :
+    (stepW cap s w).pcP = s.pcP ∧ (stepW cap s w).globalLock = s.globalLock ∧ (stepW cap s w).headLock = s.headLock := by
+  unfold stepW
+  split
+  · exact ⟨rfl, rfl, rfl⟩
+  · split <;> exact ⟨rfl, rfl, rfl⟩
+  · split <;> exact ⟨rfl, rfl, rfl⟩
+
+theorem stepF_locks (n : Nat) (s : State) :
+    (stepF n s).pcP = s.pcP ∧ (stepF n s).globalLock = s.globalLock ∧ (stepF n s).headLock = s.headLock := by
+  unfold stepF
+  split
+  · split <;> exact ⟨rfl, rfl, rfl⟩
+  · split
+    · split <;> exact ⟨rfl, rfl, rfl⟩
+    · exact ⟨rfl, rfl, rfl⟩
+  · split <;> exact ⟨rfl, rfl, rfl⟩
+
+theorem GL_upd {m : Nat} {s : State} (hg : GL m s) (p : Nat) (v : PPC) (hv : holdsGlobal (s.pcP p) = true → holdsGlobal v = true) :
+    ∀ q, s.globalLock = some q → q < m ∧ holdsGlobal (setP s p v q) = true := by
+  intro q hq
+  have := hg q hq
+  refine ⟨this.1, ?_⟩
+  unfold setP
+  by_cases e : q = p
+  · subst e; simp only [if_true]; exact hv this.2
+  · simp only [e, if_false]; exact this.2
+
+theorem gl_step (n m cap : Nat) (s : State) (hg : GL m s) (a : Act) : GL m (step n m cap s a) := by
+  cases a with
+  | push w b => simp only [step]; split <;> exact hg
+  | w w =>
+    simp only [step]
+    split
+    · have := stepW_locks cap s w
+      intro p hp; rw [this.2.1] at hp; rw [this.1]; exact hg p hp
+    · exact hg
+  | flush =>
+    simp only [step]
+    have := stepF_locks n s
+    intro p hp; rw [this.2.1] at hp; rw [this.1]; exact hg p hp
+  | pop p =>
+    simp only [step]
+    split
+    · rename_i hp
+      unfold stepP
+      cases hpc : s.pcP p with
+      | idle => simp only []; split; exact hg; exact GL_upd hg p _ (by rw [hpc]; intro h; cases h)
+      | checked => simp only []; split; exact GL_upd hg p _ (by rw [hpc]; intro h; cases h); exact hg
+      | tryHead1 => simp only []; split <;> exact GL_upd hg p _ (by rw [hpc]; intro h; cases h)
+      | gotHead1 b => exact GL_upd hg p _ (by rw [hpc]; intro h; cases h)
+      | rel1 b => exact GL_upd hg p _ (by rw [hpc]; intro h; cases h)
+      | wantGlobal =>
+        simp only []
+        split
+        · intro q hq
+          injection hq with e
+          subst e
+          exact ⟨hp, by simp [setP, holdsGlobal]⟩
+        · exact hg
+      | tryHead2 => simp only []; split <;> exact GL_upd hg p _ (fun _ => rfl)
+      | popGlobal =>
+        simp only []
+        split
+        · intro q hq; cases hq
+        · exact hg
+        · exact GL_upd hg p _ (fun _ => rfl)
+      | install b r => exact GL_upd hg p _ (fun _ => rfl)
+      | decr2 b => exact GL_upd hg p _ (fun _ => rfl)
+      | rel2 b => intro q hq; cases hq
+    · exact hg
+
+theorem reachable_gl {n m cap : Nat} {s : State} (h : Reachable n m cap s) : GL m s := by
+  obtain ⟨run, rfl⟩ := h
+  have : ∀ (t : State), GL m t → GL m (exec n m cap t run) := by
+    induction run with
+    | nil => intro t ht; exact ht
+    | cons a rest ih => intro t ht; exact ih _ (gl_step n m cap t ht a)
+  exact this init (by intro p hp; cases hp)
+
+/-- at quiescence both locks are free -/
+theorem locks_free (hcap : 0 < cap) (h : Reachable n m cap s) (hq : Quiescent n m s) :
+    s.headLock = none ∧ s.globalLock = none := by
+  constructor
+  · cases hl : s.headLock with
+    | none => rfl
+    | some p =>
+      have := (reachable_inv hcap h).str.k.lockHolder p hl
+      rw [hq.2.1 p this.1] at this; simp [holdsHead] at this
+  · cases hl : s.globalLock with
+    | none => rfl
+    | some p =>
+      have := reachable_gl h p hl
+      rw [hq.2.1 p this.1] at this; simp [holdsGlobal] at this
+
+theorem reachable_step {n m cap : Nat} {s : State} (h : Reachable n m cap s) (a : Act) : Reachable n m cap (step n m cap s a) := by
+  obtain ⟨run, rfl⟩ := h
+  refine ⟨run ++ [a], ?_⟩
+  have : ∀ (t : State), exec n m cap t (run ++ [a]) = step n m cap (exec n m cap t run) a := by
+    induction run with
+    | nil => intro t; rfl
+    | cons x rest ih => intro t; exact ih _
+  exact (this init).symm
+
+theorem reachable_runP {n m cap : Nat} (p k : Nat) : ∀ {s : State}, Reachable n m cap s → Reachable n m cap (runP n m cap p k s) := by
+  induction k with
+  | zero => intro s h; exact h
+  | succ k ih =>
+    intro s h
+    simp only [runP]
+    split
+    · exact h
+    · exact ih (reachable_step h _)
+
+theorem reachable_runF {n m cap : Nat} (k : Nat) : ∀ {s : State}, Reachable n m cap s → Reachable n m cap (runF n m cap k s) := by
+  induction k with
+  | zero => intro s h; exact h
+  | succ k ih =>
+    intro s h
+    simp only [runF]
+    split
+    · exact h
+    · exact ih (reachable_step h _)
+
+theorem reachable_popSeq {n m cap : Nat} {s : State} (h : Reachable n m cap s) (p : Nat) : Reachable n m cap (popSeq n m cap s p) :=
+  reachable_runP p 12 (reachable_step h _)
+
+theorem reachable_flushSeq {n m cap : Nat} {s : State} (h : Reachable n m cap s) : Reachable n m cap (flushSeq n m cap s) :=
+  reachable_runF _ (reachable_step h _)
+
+
+/-! ### a `pop` at quiescence, run to completion -/
+
+/-- what one successful sequential `pop` does -/
+structure PopDone (m : Nat) (s s' : State) (b : Nat) : Prop where
+  rets : s'.rets = some b :: s.rets
+  popped : s'.popped = b :: s.popped
+  pushed : s'.pushed = s.pushed
+  count : s'.count = s.count - 1
+  idle : ∀ q, q < m → s'.pcP q = .idle
+  locals : s'.locals = s.locals
+  pcW : s'.pcW = s.pcW
+  pcF : s'.pcF = s.pcF
+
+theorem pop_from_head (n cap : Nat) (p : Nat) (hp : p < m) (hidle : ∀ q, q < m → s.pcP q = .idle)
+    (hl : s.headLock = none) (hc : s.count ≠ 0) (b : Nat) (rest : List Nat) (hh : s.head = some (b :: rest)) :
+    PopDone m s (popSeq n m cap s p) b := by
+  have hi := hidle p hp
+  refine ⟨?_, ?_, ?_, ?_, ?_, ?_, ?_, ?_⟩ <;>
+    simp [popSeq, runP, step, stepP, setP, hp, hi, hc, hl, hh]
+  intro q hq hne
+  simp [hne, hidle q hq]
+
+theorem pop_from_global (n cap : Nat) (p : Nat) (hp : p < m) (hidle : ∀ q, q < m → s.pcP q = .idle)
+    (hl : s.headLock = none) (hgl : s.globalLock = none) (hc : s.count ≠ 0) (hh : headEmpty' s.head)
+    (b : Nat) (rest : List Nat) (gs : List (List Nat)) (hg : s.global = (b :: rest) :: gs) :
+    PopDone m s (popSeq n m cap s p) b := by
+  have hi := hidle p hp
+  rcases hh with hh | hh <;>
+  · refine ⟨?_, ?_, ?_, ?_, ?_, ?_, ?_, ?_⟩ <;>
+      simp [popSeq, runP, step, stepP, setP, hp, hi, hc, hl, hgl, hh, hg]
+    intro q hq hne
+    simp [hne, hidle q hq]
+
+
+theorem flatMap_range_nil (n : Nat) (f : Nat → List Nat) (h : ∀ i, i < n → f i = []) : (List.range n).flatMap f = [] := by
+  induction n with
+  | zero => rfl
+  | succ n ih =>
+    rw [List.range_succ, List.flatMap_append, ih (fun i hi => h i (by omega))]
+    simp [h n (by omega)]
+
+/-- At quiescence, with the worker-local queues empty (e.g. after `flush_all`) and `len() > 0`,
+a `pop` returns a block. -/
+theorem pop_succeeds (hcap : 0 < cap) (h : Reachable n m cap s) (hq : Quiescent n m s)
+    (hloc : ∀ i, i < n → s.locals i = []) (hc : s.count ≠ 0) (p : Nat) (hp : p < m) :
+    ∃ b, PopDone m s (popSeq n m cap s p) b := by
+  have hlocks := locks_free hcap h hq
+  have hlen := len_exact hcap h hq
+  simp only [heldList, flatMap_range_nil n s.locals hloc, List.append_nil, List.length_append] at hlen
+  cases hh : s.head with
+  | some l =>
+    cases l with
+    | cons b rest => exact ⟨b, pop_from_head n cap p hp hq.2.1 hlocks.1 hc b rest hh⟩
+    | nil =>
+      cases hg : s.global with
+      | nil => rw [hh, hg] at hlen; simp at hlen; exact absurd hlen hc
+      | cons q gs =>
+        cases q with
+        | nil => exact absurd hg (pop_never_panics hcap h gs)
+        | cons b rest => exact ⟨b, pop_from_global n cap p hp hq.2.1 hlocks.1 hlocks.2 hc (Or.inr hh) b rest gs hg⟩
+  | none =>
+    cases hg : s.global with
+    | nil => rw [hh, hg] at hlen; simp at hlen; exact absurd hlen hc
+    | cons q gs =>
+      cases q with
+      | nil => exact absurd hg (pop_never_panics hcap h gs)
+      | cons b rest => exact ⟨b, pop_from_global n cap p hp hq.2.1 hlocks.1 hlocks.2 hc (Or.inl hh) b rest gs hg⟩
+
+/-- `k` successive `pop`s by popper `p` -/
+def popAll (n m cap p : Nat) : Nat → State → State
+  | 0, s => s
+  | k + 1, s => popAll n m cap p k (popSeq n m cap s p)
+
+/-- With the local queues empty, `len()` successive pops all return a block and empty the pool. -/
+theorem drain (hcap : 0 < cap) (p : Nat) (hp : p < m) : ∀ (k : Nat) (t : State), Reachable n m cap t → Quiescent n m t →
+    (∀ i, i < n → t.locals i = []) → t.count = k →
+    Reachable n m cap (popAll n m cap p k t) ∧ Quiescent n m (popAll n m cap p k t) ∧
+    (popAll n m cap p k t).count = 0 ∧ (popAll n m cap p k t).popped.length = t.popped.length + k ∧
+    (popAll n m cap p k t).pushed = t.pushed := by
+  intro k
+  induction k with
+  | zero => intro t h hq _ hc; exact ⟨h, hq, hc, rfl, rfl⟩
+  | succ k ih =>
+    intro t h hq hloc hc
+    obtain ⟨b, d⟩ := pop_succeeds hcap h hq hloc (by omega) p hp
+    have hq' : Quiescent n m (popSeq n m cap t p) := ⟨by rw [d.pcW]; exact hq.1, d.idle, by rw [d.pcF]; exact hq.2.2⟩
+    have := ih (popSeq n m cap t p) (reachable_popSeq h p) hq' (by rw [d.locals]; exact hloc) (by rw [d.count]; omega)
+    simp only [popAll]
+    refine ⟨this.1, this.2.1, this.2.2.1, ?_, ?_⟩
+    · rw [this.2.2.2.1, d.popped]; simp; omega
+    · rw [this.2.2.2.2, d.pushed]
+
+
+/-! ### `flush_all` at quiescence, run to completion -/
+
+theorem runF_idle (n m cap : Nat) (k : Nat) (t : State) (h : t.pcF = .idle) : runF n m cap k t = t := by
+  cases k with
+  | zero => rfl
+  | succ k => simp [runF, h]
+
+structure FlushDone (n : Nat) (t t' : State) : Prop where
+  idle : t'.pcF = .idle
+  locals : ∀ j, j < n → t'.locals j = []
+  pcW : t'.pcW = t.pcW
+  pcP : t'.pcP = t.pcP
+  count : t'.count = t.count
+  pushed : t'.pushed = t.pushed
+  popped : t'.popped = t.popped
+
+theorem flush_loop (n m cap : Nat) : ∀ (d i : Nat) (t : State), i + d = n → t.pcF = .at i → t.globalLock = none →
+    (∀ j, j < i → t.locals j = []) → ∀ k, 2 * d + 1 ≤ k → FlushDone n t (runF n m cap k t) := by
+  intro d
+  induction d with
+  | zero =>
+    intro i t hi hpc _ hloc k hk
+    have hin : i = n := by omega
+    subst hin
+    obtain ⟨k', rfl⟩ : ∃ k', k = k' + 1 := ⟨k - 1, by omega⟩
+    have e : step i m cap t .flush = { t with pcF := .idle } := by simp [step, stepF, hpc]
+    simp only [runF, hpc]
+    rw [if_neg (by simp), e, runF_idle _ _ _ _ _ rfl]
+    exact ⟨rfl, hloc, rfl, rfl, rfl, rfl, rfl⟩
+  | succ d ih =>
+    intro i t hi hpc hgl hloc k hk
+    have hin : i < n := by omega
+    obtain ⟨k', rfl⟩ : ∃ k', k = k' + 1 := ⟨k - 1, by omega⟩
+    simp only [runF, hpc]
+    rw [if_neg (by simp)]
+    by_cases hl : t.locals i = []
+    · have e : step n m cap t .flush = { t with pcF := .at (i + 1) } := by simp [step, stepF, hpc, hin, hl]
+      rw [e]
+      have := ih (i + 1) { t with pcF := .at (i + 1) } (by omega) rfl hgl
+        (by intro j hj; by_cases e : j = i; rw [e]; exact hl; exact hloc j (by omega)) k' (by omega)
+      exact ⟨this.idle, this.locals, this.pcW, this.pcP, this.count, this.pushed, this.popped⟩
+    · have e : step n m cap t .flush = { t with locals := setL t i [], pcF := .pushG i (t.locals i) } := by
+        simp [step, stepF, hpc, hin, hl]
+      rw [e]
+      obtain ⟨k'', rfl⟩ : ∃ k'', k' = k'' + 1 := ⟨k' - 1, by omega⟩
+      simp only [runF]
+      rw [if_neg (by simp)]
+      have e2 : step n m cap { t with locals := setL t i [], pcF := .pushG i (t.locals i) } .flush =
+          { t with locals := setL t i [], global := t.locals i :: t.global, pcF := .at (i + 1) } := by
+        simp [step, stepF, hgl]
+      rw [e2]
+      have := ih (i + 1) { t with locals := setL t i [], global := t.locals i :: t.global, pcF := .at (i + 1) }
+        (by omega) rfl hgl
+        (by intro j hj; simp only [setL]; by_cases e : j = i; simp [e]; simp only [e, if_false]; exact hloc j (by omega))
+        k'' (by omega)
+      exact ⟨this.idle, this.locals, this.pcW, this.pcP, this.count, this.pushed, this.popped⟩
+
+/-- `flush_all` at quiescence: returns, leaves every worker-local queue empty (if `len() > 0`;
+otherwise it returns at once — then nothing is held at all), and changes neither `len()` nor the ghosts. -/
+theorem flush_done (hcap : 0 < cap) (h : Reachable n m cap s) (hq : Quiescent n m s) :
+    let s' := flushSeq n m cap s
+    Quiescent n m s' ∧ s'.count = s.count ∧ s'.pushed = s.pushed ∧ s'.popped = s.popped ∧
+    (s.count ≠ 0 → ∀ j, j < n → s'.locals j = []) := by
+  have hlocks := locks_free hcap h hq
+  have hwi : workersIdle n s = true := by
+    simp only [workersIdle, List.all_eq_true, List.mem_range]
+    intro i hi; rw [hq.1 i hi]; rfl
+  by_cases hc : s.count = 0
+  · have e : step n m cap s .flush = s := by simp [step, stepF, hq.2.2, hc]
+    simp only [flushSeq, e, runF_idle n m cap _ s hq.2.2]
+    exact ⟨hq, trivial, trivial, trivial, fun h => absurd hc h⟩
+  · have e : step n m cap s .flush = { s with pcF := .at 0 } := by simp [step, stepF, hq.2.2, hc, hwi]
+    simp only [flushSeq, e]
+    have := flush_loop n m cap n 0 { s with pcF := .at 0 } (by omega) rfl hlocks.2 (by intro j hj; omega) (2 * n + 2) (by omega)
+    refine ⟨⟨?_, ?_, this.idle⟩, this.count, this.pushed, this.popped, fun _ => this.locals⟩
+    · rw [this.pcW]; exact hq.1
+    · rw [this.pcP]; exact hq.2.1
+
+/-- **C19 (5) `flush_makes_poppable`.** From any quiescent reachable state (nobody pushing): after
+`flush_all`, `len()` is unchanged and `len()` successive `pop`s each return a block; afterwards the
+pool is empty and, as multisets, the popped blocks are exactly the blocks popped before plus all the
+blocks that were held — every held block was poppable. -/
+theorem flush_makes_poppable (hcap : 0 < cap) (h : Reachable n m cap s) (hq : Quiescent n m s) (p : Nat) (hp : p < m) :
+    let s1 := flushSeq n m cap s
+    let s2 := popAll n m cap p s1.count s1
+    s1.count = s.count ∧ s2.popped.length = s.popped.length + s.count ∧ s2.count = 0 ∧ heldList n s2 = [] ∧
+    s2.popped.Perm (s.popped ++ heldList n s) := by
+  have fd := flush_done hcap h hq
+  simp only at fd
+  obtain ⟨hq1, hc1, hpu1, hpo1, hloc1⟩ := fd
+  have hr1 := reachable_flushSeq (n := n) (m := m) (cap := cap) h
+  have hloc : ∀ i, i < n → (flushSeq n m cap s).locals i = [] ∨ (flushSeq n m cap s).count = 0 := by
+    intro i hi
+    by_cases hc : s.count = 0
+    · right; rw [hc1]; exact hc
+    · left; exact hloc1 hc i hi
+  have dr : Reachable n m cap (popAll n m cap p (flushSeq n m cap s).count (flushSeq n m cap s)) ∧
+      Quiescent n m (popAll n m cap p (flushSeq n m cap s).count (flushSeq n m cap s)) ∧
+      (popAll n m cap p (flushSeq n m cap s).count (flushSeq n m cap s)).count = 0 ∧
+      (popAll n m cap p (flushSeq n m cap s).count (flushSeq n m cap s)).popped.length =
+        (flushSeq n m cap s).popped.length + (flushSeq n m cap s).count ∧
+      (popAll n m cap p (flushSeq n m cap s).count (flushSeq n m cap s)).pushed = (flushSeq n m cap s).pushed := by
+    by_cases hc : (flushSeq n m cap s).count = 0
+    · rw [hc]; exact ⟨hr1, hq1, hc, rfl, rfl⟩
+    · exact drain hcap p hp _ _ hr1 hq1 (fun i hi => (hloc i hi).resolve_right hc) rfl
+  obtain ⟨hr2, hq2, hc2, hl2, hpu2⟩ := dr
+  have hheld : heldList n (popAll n m cap p (flushSeq n m cap s).count (flushSeq n m cap s)) = [] := by
+    have := len_exact hcap hr2 hq2
+    rw [hc2] at this
+    exact List.eq_nil_of_length_eq_zero this.symm
+  refine ⟨hc1, by rw [hl2, hpo1, hc1], hc2, hheld, ?_⟩
+  have c2 := conservation_quiescent hcap hr2 hq2
+  rw [hheld, List.append_nil, hpu2, hpu1] at c2
+  exact c2.symm.trans (conservation_quiescent hcap h hq)
+
+/-! ## non-vacuity: concrete schedules (capacity 2 so that overflow is reached) -/
+
+/-- Two workers push 0,1,2 and 10 concurrently with a popper; worker 0 overflows its queue of
+capacity 2 (the full queue goes to `global`), the popper takes a queue from `global`, installs the
+rest as head; the flusher then flushes; all hypotheses of the theorems hold (reachable by definition). -/
+example :
+    let s := exec 2 1 2 init
+      [.push 0 0, .w 0, .push 1 10, .push 0 1, .w 0, .w 1, .push 0 2, .w 0, .w 0,
+       .pop 0, .pop 0, .pop 0, .pop 0, .pop 0, .pop 0, .pop 0, .pop 0, .pop 0,
+       .flush, .flush, .flush, .flush, .flush, .flush]
+    s.count = 3 ∧ s.head = some [0] ∧ s.global = [[10], [2]] ∧ s.popped = [1] ∧ s.pcF = .idle ∧
+    s.locals 0 = [] ∧ s.locals 1 = [] := by
+  decide
+
+/-- a state in flight: worker 0 holds its full old queue, the popper holds a block and the head lock -/
+example :
+    let s := exec 1 2 1 init [.push 0 5, .w 0, .push 0 6, .w 0, .w 0, .push 0 7, .w 0, .pop 0, .pop 0, .pop 0, .pop 0, .pop 0, .pop 0]
+    s.pcW 0 = .pushGlobal [6] ∧ s.pcP 0 = .install 5 [] ∧ s.headLock = some 0 ∧ s.count = 3 ∧
+    inflightList 1 2 s = [6, 5] ∧ heldList 1 s = [7] := by
+  decide
 
 end Mmtk.BlockPool
